@@ -27,7 +27,17 @@
 (* frame" and "by the end of a drained run"), whether a Ping received after   *)
 (* the closing handshake began is answered, when the terminal stages turn     *)
 (* into `terminated`, what a refused call returns.                            *)
+(*                                                                            *)
+(* Focus: the monitor serves two properties.  A rule whose key belongs to a   *)
+(* property that is not in Focus is not enforced: the monitor notes the first *)
+(* such key in m.other (reported as evidence, never a verdict), continues     *)
+(* with the update it would have made had the observation been acceptable,    *)
+(* and goes on judging the rules in focus - so a rejection of one family      *)
+(* early in a scenario never hides one of the other family later in it.       *)
+(* C08/harness/... keys (trace or driver trouble) are always enforced.        *)
 EXTENDS Integers, Sequences, FiniteSets
+
+CONSTANT Focus     \* set of property ids ("C08", "C17") whose rules are enforced
 
 ReadApis   == {"NextFrame", "NextMessage", "AsyncNextFrame", "AsyncNextMessage"}
 FrameApis  == {"NextFrame", "AsyncNextFrame"}
@@ -59,9 +69,17 @@ MonInit0 ==
    ops     |-> <<>>,      \* started calls by id: [api, done, t]
    pend    |-> 0,         \* Pending() as last sampled: frames queued and not yet taken by a flush
    ovl     |-> FALSE,     \* a transport write was started while another one was in flight
+   other   |-> "",        \* first rule key outside the focus that would have rejected
    bad     |-> ""]
 
-Fail(m, key) == [m EXCEPT !.bad = key]
+Harness(key) == Len(key) >= 11 /\ SubSeq(key, 5, 11) = "harness"
+InFocus(key) == SubSeq(key, 1, 3) \in Focus \/ Harness(key)
+
+\* `cont`: what the monitor goes on with when the rule is not in focus
+Fail(m, key, cont) ==
+  IF InFocus(key) THEN [m EXCEPT !.bad = key]
+  ELSE IF m.other = "" THEN [cont EXCEPT !.other = key]
+  ELSE cont
 
 Class(m) == IF m.ovl THEN "overlapping-flush" ELSE "plain"
 
@@ -94,7 +112,7 @@ ObsCall(m, e) ==
       m1   == [m EXCEPT !.ops = Append(@, [api |-> e.api, done |-> 0, t |-> e.t])]
       m2   == IF e.api \in AsyncApis /\ starts /\ InFlight(m) THEN [m1 EXCEPT !.ovl = TRUE] ELSE m1
   IN
-  IF e.id # id THEN Fail(m, "C08/harness/call-id")
+  IF e.id # id THEN Fail(m, "C08/harness/call-id", m)
   ELSE IF e.api \in WriteApis THEN
     IF m.stage # "active" THEN [m2 EXCEPT !.wtoks = @ \cup {e.t}, !.refused = @ \cup {e.t}]
     ELSE
@@ -110,79 +128,92 @@ ObsCall(m, e) ==
 
 \* ------------------------------------------------------------------- Got
 ObsGot(m, e) ==
-  IF e.id \notin DOMAIN m.ops \/ m.ops[e.id].api \notin ReadApis THEN Fail(m, "C08/harness/got-id")
+  IF e.id \notin DOMAIN m.ops \/ m.ops[e.id].api \notin ReadApis THEN Fail(m, "C08/harness/got-id", m)
   ELSE IF e.k = "close" /\ e.c = 1006 THEN
     \* synthetic abnormal-closure frame: legitimate only for a transport EOF
     IF CanRead(m) /\ m.inq # <<>> /\ m.inq[1].k = "eof" THEN [m EXCEPT !.s1006 = @ \cup {e.id}]
-    ELSE Fail(m, "C08/no-1006/spurious")
-  ELSE IF ~CanRead(m) THEN Fail(m, "C08/read-after-close/" \o m.stage)
-  ELSE IF m.inq = <<>> THEN Fail(m, "C08/rx-mismatch/nothing-sent")
+    ELSE Fail(m, "C08/no-1006/spurious", m)
   ELSE
-    LET p == m.inq[1]
-        pk == IF p.k \in {"closeValid", "closeEmpty", "closeInvalid"} THEN "close" ELSE p.k
-        m1 == [m EXCEPT !.inq = Tail(@)]
+    LET \* the frame is matched with what the peer sent at this position
+        matched ==
+          IF m.inq = <<>> THEN Fail(m, "C08/rx-mismatch/nothing-sent", m)
+          ELSE
+          LET p == m.inq[1]
+              pk == IF p.k \in {"closeValid", "closeEmpty", "closeInvalid"} THEN "close" ELSE p.k
+              m1 == [m EXCEPT !.inq = Tail(@)]
+          IN
+          IF pk # e.k \/ (e.k \in {"data", "ping", "pong"} /\ p.t # e.t) THEN Fail(m, "C08/rx-mismatch/" \o pk, m)
+          ELSE IF e.k = "ping" THEN
+            \* AsyncNextMessage goes on reading: it flushes the reply it has just queued
+            [m1 EXCEPT !.owed = Append(@, [t |-> e.t, must |-> (m.stage = "active"), due |-> 0]),
+                       !.ovl = @ \/ (m.stage = "active" /\ m.ops[e.id].api = "AsyncNextMessage" /\ InFlight(m))]
+          ELSE IF e.k = "pong" THEN [m1 EXCEPT !.pongs = @ \cup {e.t}]
+          ELSE IF e.k = "close" THEN
+            IF m.stage = "active"
+              THEN [m1 EXCEPT !.stage = "closedByPeer", !.ccode = ReplyCode(p), !.cwhy = "reply",
+                              !.ovl = @ \/ (m.ops[e.id].api = "AsyncNextMessage" /\ InFlight(m))]
+              ELSE IF m.stage = "closedByUs" THEN [m1 EXCEPT !.stage = "closeAcked"] ELSE m1
+          ELSE m1
     IN
-    IF pk # e.k \/ (e.k \in {"data", "ping", "pong"} /\ p.t # e.t) THEN Fail(m, "C08/rx-mismatch/" \o pk)
-    ELSE IF e.k = "ping" THEN
-      \* AsyncNextMessage goes on reading: it flushes the reply it has just queued
-      [m1 EXCEPT !.owed = Append(@, [t |-> e.t, must |-> (m.stage = "active"), due |-> 0]),
-                 !.ovl = @ \/ (m.stage = "active" /\ m.ops[e.id].api = "AsyncNextMessage" /\ InFlight(m))]
-    ELSE IF e.k = "pong" THEN [m1 EXCEPT !.pongs = @ \cup {e.t}]
-    ELSE IF e.k = "close" THEN
-      IF m.stage = "active"
-        THEN [m1 EXCEPT !.stage = "closedByPeer", !.ccode = ReplyCode(p), !.cwhy = "reply",
-                        !.ovl = @ \/ (m.ops[e.id].api = "AsyncNextMessage" /\ InFlight(m))]
-        ELSE [m1 EXCEPT !.stage = "closeAcked"]
-    ELSE m1
+    IF ~CanRead(m) THEN Fail(m, "C08/read-after-close/" \o m.stage, matched) ELSE matched
 
 \* ------------------------------------------------------------------ Wire
+WireData(m, e) ==
+  LET acc == [m EXCEPT !.ndata = @ + 1, !.wseen = @ \cup {e.t}]
+      d4  == IF \E k \in DOMAIN m.owed : m.owed[k].must /\ m.owed[k].due # 0 /\ m.owed[k].due <= m.ndata + 1
+               THEN Fail(m, "C08/pong-order/behind-application-frame", acc)
+               ELSE acc
+      d3  == IF e.t \in m.refused THEN Fail(m, "C08/write-after-close/on-wire", d4) ELSE d4
+      d2  == IF e.t \in m.wseen THEN Fail(m, "C17/wire-repeat/" \o Class(m), m)
+             ELSE IF e.t \notin m.wtoks THEN Fail(m, "C17/wire-corrupt/" \o Class(m), m)
+             ELSE d3
+  IN IF m.closes >= 1 THEN Fail(m, "C08/data-after-close", d2) ELSE d2
+
 ObsWire(m, e) ==
-  IF e.k = "garbage" THEN Fail(m, "C17/wire-corrupt/" \o Class(m))
-  ELSE IF e.k = "repeat" THEN Fail(m, "C17/wire-repeat/" \o Class(m))
-  ELSE IF e.k = "ping" THEN Fail(m, "C08/wire-unexpected/ping")
+  IF e.k = "garbage" THEN Fail(m, "C17/wire-corrupt/" \o Class(m), m)
+  ELSE IF e.k = "repeat" THEN Fail(m, "C17/wire-repeat/" \o Class(m), m)
+  ELSE IF e.k = "ping" THEN Fail(m, "C08/wire-unexpected/ping", m)
   ELSE IF e.k = "close" THEN
+    LET acc == [m EXCEPT !.closes = 1, !.cwhy = IF @ = "local?" THEN "local" ELSE @] IN
     IF m.closes >= 1 THEN
-      Fail(m, "C08/second-close/" \o (IF m.vafter THEN "after-violation" ELSE m.stage))
-    ELSE IF m.ccode = -1 THEN Fail(m, "C08/close-unsolicited")
-    ELSE IF e.c # m.ccode THEN Fail(m, "C08/close-code/" \o m.cwhy)
-    ELSE [m EXCEPT !.closes = 1, !.cwhy = IF @ = "local?" THEN "local" ELSE @]
-  ELSE IF e.k = "data" THEN
-    IF m.closes >= 1 THEN Fail(m, "C08/data-after-close")
-    ELSE IF e.t \in m.wseen THEN Fail(m, "C17/wire-repeat/" \o Class(m))
-    ELSE IF e.t \notin m.wtoks THEN Fail(m, "C17/wire-corrupt/" \o Class(m))
-    ELSE IF e.t \in m.refused THEN Fail(m, "C08/write-after-close/on-wire")
-    ELSE IF \E k \in DOMAIN m.owed : m.owed[k].must /\ m.owed[k].due # 0 /\ m.owed[k].due <= m.ndata + 1
-      THEN Fail(m, "C08/pong-order/behind-application-frame")
-    ELSE [m EXCEPT !.ndata = @ + 1, !.wseen = @ \cup {e.t}]
+      Fail(m, "C08/second-close/" \o (IF m.vafter THEN "after-violation" ELSE m.stage), m)
+    ELSE IF m.ccode = -1 THEN Fail(m, "C08/close-unsolicited", acc)
+    ELSE IF e.c # m.ccode THEN Fail(m, "C08/close-code/" \o m.cwhy, acc)
+    ELSE acc
+  ELSE IF e.k = "data" THEN WireData(m, e)
   ELSE IF e.k = "pong" THEN
-    IF e.t \in m.ponged THEN Fail(m, "C08/pong-twice")
-    ELSE IF e.t \in m.pongs THEN Fail(m, "C08/pong-answered")
-    ELSE IF ~\E k \in DOMAIN m.owed : m.owed[k].t = e.t THEN Fail(m, "C08/pong-unsolicited")
+    IF e.t \in m.ponged THEN Fail(m, "C08/pong-twice", m)
+    ELSE IF e.t \in m.pongs THEN Fail(m, "C08/pong-answered", m)
+    ELSE IF ~\E k \in DOMAIN m.owed : m.owed[k].t = e.t THEN Fail(m, "C08/pong-unsolicited", m)
     ELSE
-      LET k == CHOOSE k \in DOMAIN m.owed : m.owed[k].t = e.t IN
-      IF \E j \in 1..(k - 1) : m.owed[j].must THEN Fail(m, "C08/pong-order/arrival")
-      ELSE IF m.closes >= 1 /\ m.owed[k].must THEN Fail(m, "C08/pong-order/behind-close")
+      LET k == CHOOSE k \in DOMAIN m.owed : m.owed[k].t = e.t
+          \* out of arrival order: only this entry leaves the list
+          acc == [m EXCEPT !.owed = SubSeq(@, 1, k - 1) \o SubSeq(@, k + 1, Len(@)), !.ponged = @ \cup {e.t}]
+      IN
+      IF \E j \in 1..(k - 1) : m.owed[j].must THEN Fail(m, "C08/pong-order/arrival", acc)
+      ELSE IF m.closes >= 1 /\ m.owed[k].must THEN Fail(m, "C08/pong-order/behind-close", acc)
       ELSE [m EXCEPT !.owed = SubSeq(@, k + 1, Len(@)), !.ponged = @ \cup {e.t}]
-  ELSE Fail(m, "C08/harness/wire-kind")
+  ELSE Fail(m, "C08/harness/wire-kind", m)
 
 \* ------------------------------------------------------------------ Done
 ObsDone(m, e) ==
-  IF e.id \notin DOMAIN m.ops THEN Fail(m, "C08/harness/done-id")
+  IF e.id \notin DOMAIN m.ops THEN Fail(m, "C08/harness/done-id", m)
   ELSE
   LET op == m.ops[e.id]
       m1 == [m EXCEPT !.ops[e.id].done = 1]
   IN
-  IF op.done # 0 THEN Fail(m, "C17/callback-twice/" \o op.api)
+  IF op.done # 0 THEN Fail(m, "C17/callback-twice/" \o op.api, m)
   ELSE IF op.api \in ReadApis THEN
     CASE e.err = "nil" -> m1                \* what it delivered was judged at the Got events
       [] e.err = "eof" ->
            IF ~CanRead(m) THEN m1            \* end-of-stream after the closing handshake
-           ELSE IF m.inq = <<>> \/ m.inq[1].k # "eof" THEN Fail(m, "C08/rx-mismatch/early-eof")
-           ELSE IF op.api \in FrameApis /\ e.id \notin m.s1006 THEN Fail(m, "C08/no-1006/" \o op.api)
+           ELSE IF m.inq = <<>> \/ m.inq[1].k # "eof" THEN Fail(m, "C08/rx-mismatch/early-eof", m1)
+           ELSE IF op.api \in FrameApis /\ e.id \notin m.s1006
+             THEN Fail(m, "C08/no-1006/" \o op.api, [m1 EXCEPT !.stage = "terminated"])
            ELSE [m1 EXCEPT !.stage = "terminated"]     \* inq keeps the eof marker: it is sticky
       [] e.err = "proto" ->
-           IF ~CanRead(m) THEN Fail(m, "C08/read-after-close/" \o m.stage)
-           ELSE IF m.inq = <<>> \/ m.inq[1].k # "viol" THEN Fail(m, "C08/rx-mismatch/proto")
+           IF ~CanRead(m) THEN Fail(m, "C08/read-after-close/" \o m.stage, m1)
+           ELSE IF m.inq = <<>> \/ m.inq[1].k # "viol" THEN Fail(m, "C08/rx-mismatch/proto", m1)
            ELSE IF m.stage = "active"
              THEN [m1 EXCEPT !.inq = Tail(@), !.stage = "closedByUs",
                              !.ccode = IF m.ccode = -1 \/ m.cwhy = "local?" THEN 1002 ELSE @,
@@ -191,20 +222,19 @@ ObsDone(m, e) ==
       [] e.err = "terr" ->
            IF CanRead(m) /\ m.inq # <<>> /\ m.inq[1].k = "err"
              THEN [m1 EXCEPT !.inq = Tail(@), !.loose = TRUE]
-             ELSE Fail(m, "C08/rx-mismatch/terr")
+             ELSE Fail(m, "C08/rx-mismatch/terr", m1)
       [] e.err = "stall" ->
-           IF m.inq = <<>> \/ ~CanRead(m) THEN m1 ELSE Fail(m, "C08/rx-mismatch/stall")
-      [] OTHER -> IF CanRead(m) THEN Fail(m, "C08/rx-mismatch/" \o e.err) ELSE m1
+           IF m.inq = <<>> \/ ~CanRead(m) THEN m1 ELSE Fail(m, "C08/rx-mismatch/stall", m1)
+      [] OTHER -> IF CanRead(m) THEN Fail(m, "C08/rx-mismatch/" \o e.err, m1) ELSE m1
   ELSE IF op.api \in WriteApis THEN
     IF e.err = "nil" THEN
-      IF op.t \in m.refused THEN Fail(m, "C08/write-after-close/accepted")
-      ELSE IF op.t \notin m.wseen THEN Fail(m, "C17/wrong-result/" \o Class(m))
-      ELSE m1
+      LET w2 == IF op.t \notin m.wseen THEN Fail(m, "C17/wrong-result/" \o Class(m), m1) ELSE m1 IN
+      IF op.t \in m.refused THEN Fail(m, "C08/write-after-close/accepted", w2) ELSE w2
     ELSE m1
   ELSE IF op.api \in CloseApis THEN
     IF e.err = "nil" THEN
-      IF e.id # m.cid THEN Fail(m, "C08/close-accepted/" \o m.stage)
-      ELSE IF m.closes = 0 THEN Fail(m, "C17/wrong-result/" \o Class(m))
+      IF e.id # m.cid THEN Fail(m, "C08/close-accepted/" \o m.stage, m1)
+      ELSE IF m.closes = 0 THEN Fail(m, "C17/wrong-result/" \o Class(m), m1)
       ELSE m1
     ELSE IF m.cwhy = "local?" /\ m.closes = 0 /\ e.id = m.cid
       \* refused although the stage allowed it: no Close expected any more
@@ -225,10 +255,11 @@ ObsSample(m, e) ==
       stage == m.stage
       ok == \/ s = stage
             \/ s = "terminated" /\ (stage \in {"closedByPeer", "closeAcked"} \/ m.loose)
+      acc == [m EXCEPT !.sawTerm = (s = "terminated"), !.pend = e.pend]
   IN
-  IF ~ok THEN Fail(m, "C08/state/" \o m.stage \o ":" \o s)
-  ELSE IF m.sawTerm /\ s # "terminated" THEN Fail(m, "C08/state/left-terminated")
-  ELSE [m EXCEPT !.sawTerm = (s = "terminated"), !.pend = e.pend]
+  IF ~ok THEN Fail(m, "C08/state/" \o m.stage \o ":" \o s, acc)
+  ELSE IF m.sawTerm /\ s # "terminated" THEN Fail(m, "C08/state/left-terminated", acc)
+  ELSE acc
 
 \* ------------------------------------------------------------------- End
 LostOps(m) == {k \in DOMAIN m.ops : m.ops[k].done = 0}
@@ -240,13 +271,15 @@ ReadStarved(m) == m.inq = <<>> \/ ~CanRead(m)
 ObsEnd(m, e) ==
   IF e.k # "drained" \/ ~m.healthy THEN m
   ELSE
-    LET lost == {k \in LostOps(m) : ~(m.ops[k].api \in ReadApis /\ ReadStarved(m))} IN
+    LET lost == {k \in LostOps(m) : ~(m.ops[k].api \in ReadApis /\ ReadStarved(m))}
+        e3 == IF m.ccode # -1 /\ m.cwhy \in {"reply", "local"} /\ m.closes = 0
+                THEN Fail(m, "C08/close-missing/" \o m.cwhy, m) ELSE m
+        e2 == IF \E k \in DOMAIN m.owed : m.owed[k].must THEN Fail(m, "C08/pong-missing", e3) ELSE e3
+    IN
     IF lost # {} THEN
       Fail(m, "C17/callback-lost/" \o (IF m.ovl THEN "overlapping-flush"
-                                       ELSE m.ops[CHOOSE k \in lost : \A j \in lost : k <= j].api))
-    ELSE IF \E k \in DOMAIN m.owed : m.owed[k].must THEN Fail(m, "C08/pong-missing")
-    ELSE IF m.ccode # -1 /\ m.cwhy \in {"reply", "local"} /\ m.closes = 0 THEN Fail(m, "C08/close-missing/" \o m.cwhy)
-    ELSE m
+                                       ELSE m.ops[CHOOSE k \in lost : \A j \in lost : k <= j].api), e2)
+    ELSE e2
 
 \* ------------------------------------------------------------------ step
 MonStep(m, e) ==
@@ -259,7 +292,7 @@ MonStep(m, e) ==
          [] e.ev = "Sample" -> ObsSample(m, e)
          [] e.ev = "Env"    -> m
          [] e.ev = "End"    -> ObsEnd(m, e)
-         [] OTHER           -> Fail(m, "C08/harness/unknown-event")
+         [] OTHER           -> Fail(m, "C08/harness/unknown-event", m)
 
 RECURSIVE MonRun(_, _)
 MonRun(m, es) == IF es = <<>> THEN m ELSE MonRun(MonStep(m, Head(es)), Tail(es))
